@@ -88,7 +88,7 @@ func markerOwnership(r *Run, rule string) {
 		if fn.Pkg == nil || short(fn.Pkg.Pkg.Path()) != "store/rootmulti" {
 			continue
 		}
-		Instrs(fn, func(in ssa.Instruction) {
+		InstrsRaw(fn, func(in ssa.Instruction) {
 			ci, ok := in.(ssa.CallInstruction)
 			if !ok || !ci.Common().IsInvoke() {
 				return
@@ -312,7 +312,7 @@ func checkC13(r *Run) {
 					// provably older than the marker? the marker is the previous version = saved-1; x = (saved-1)-numRecent is older only if numRecent >= 1
 					gs := P.Guards(c, 0)
 					older, _ := HasAtom(gs, `^\(0 < param:st\.numRecent\)$`)
-					r.Check(!before || older, "C13-R2", "prune-before-marker-flush@"+short(fn.String()), P.InstrPos(c),
+					r.Check(!before || older, "C13-R2", "prune-before-marker-flush@"+short(P.liftToPinned(fn).String()), P.InstrPos(c),
 						"the pruning delete is provably below the marker version",
 						"reachable from rootmulti Commit via "+g.PathTo(reached, fn)+" BEFORE batch.Write(): DeleteVersion("+x+") removes, with numRecent = 0 (PruneEverything), exactly the version the on-disk latest-version marker still names; IAVL deletes durably at once, so a crash between this delete and the marker flush leaves a marker pointing at a deleted version (reopen fails)")
 				}
